@@ -88,3 +88,60 @@ theorem repaired_at_most_one (evs : List Ev) (hr : ∀ e ∈ evs, repaired e = t
     exact ih (fun e' he' => hr e' (List.mem_cons_of_mem _ he')) _ (step_repaired s e (hr e List.mem_cons_self) h)
 
 end Spine.Bind
+
+namespace Spine.Bind
+
+/-! the code as written, partial: requests that do not overlap -/
+
+/-- a call that runs alone: the check immediately followed by the insertion of the same request -/
+inductive Call
+  | add (op server client : Nat)
+  | remove (server client : Nat)
+
+def Call.evs : Call → List Ev
+  | .add op srv cl => [.check op srv cl, .insert op]
+  | .remove srv cl => [.remove srv cl]
+
+theorem call_step (s : St) (h : AtMostOne s) (hp : s.passed = []) (c : Call) :
+    AtMostOne (c.evs.foldl step s) ∧ (c.evs.foldl step s).passed = [] := by
+  cases c with
+  | add op srv cl =>
+    simp only [Call.evs, List.foldl_cons, List.foldl_nil]
+    by_cases hemp : (onServer s srv).isEmpty = true
+    · have h1 : step s (.check op srv cl) = { s with passed := [(op, srv, cl)] } := by
+        simp [step, hemp, hp]
+      rw [h1]
+      simp only [step, List.find?_cons, decide_true, List.filter_cons, ne_eq, not_true_eq_false, decide_false,
+        List.filter_nil]
+      refine ⟨?_, by simp⟩
+      intro srv'
+      simp only [onServer, filter_append_len]
+      by_cases hs : srv = srv'
+      · subst hs
+        have : (s.entries.filter (·.server = srv)).length = 0 := by
+          simpa [onServer, List.isEmpty_iff] using hemp
+        simp [this]
+      · have := h srv'; simp [onServer] at this; simp [hs]; exact this
+    · have h1 : step s (.check op srv cl) = s := by simp [step, hemp]
+      rw [h1]
+      have h2 : step s (.insert op) = s := by simp [step, hp]
+      rw [h2]
+      exact ⟨h, hp⟩
+  | remove srv cl =>
+    simp only [Call.evs, List.foldl_cons, List.foldl_nil]
+    exact ⟨step_repaired s (.remove srv cl) rfl h, by simp [step, hp]⟩
+
+/-- the code as written: at most one binding per server feature as long as requests do not overlap -/
+theorem sequential_at_most_one (calls : List Call) : AtMostOne (run (calls.flatMap Call.evs)) := by
+  unfold run
+  suffices ∀ s : St, AtMostOne s → s.passed = [] →
+      AtMostOne ((calls.flatMap Call.evs).foldl step s) from this {} (by intro srv; simp [onServer]) rfl
+  induction calls with
+  | nil => intro s h _; exact h
+  | cons c cs ih =>
+    intro s h hp
+    rw [List.flatMap_cons, List.foldl_append]
+    have := call_step s h hp c
+    exact ih _ this.1 this.2
+
+end Spine.Bind
